@@ -42,6 +42,12 @@ def oracle_cases(tier, rng):
     for lay in LAYOUTS[1:]:
         yield dict(dir='fwd', biort=b, qshift=q, J=2, H=8, W=12, layout=list(lay), skip=[0, 0], scales=[0, 0], seed=int(rng.integers(1 << 30)))
         yield dict(dir='inv', biort=b, qshift=q, J=2, H=8, W=12, layout=list(lay), subset=[1, 1, 1], seed=int(rng.integers(1 << 30)))
+    # level 1 also takes mode='zero' (anything but 'symmetric'): forward and hand-written backward must use the same padding
+    for (bb, qq) in (pairs[0], pairs[2]):
+        for J in (1, 2):
+            for hw in [(8, 8), (6, 10)]:
+                yield dict(dir='fwd', biort=bb, qshift=qq, J=J, H=hw[0], W=hw[1], layout=list(LAYOUTS[0]), skip=[0] * J, scales=[0] * J, mode='zero', seed=int(rng.integers(1 << 30)))
+                yield dict(dir='inv', biort=bb, qshift=qq, J=J, H=hw[0], W=hw[1], layout=list(LAYOUTS[0]), subset=[1] * (J + 1), mode='zero', seed=int(rng.integers(1 << 30)))
     for J in (2, 3):
         for skip in itertools.product([0, 1], repeat=J):
             for scales in ([0] * J, [1] * J, [1] + [0] * (J - 1)):
@@ -50,7 +56,7 @@ def oracle_cases(tier, rng):
 
 
 def strat_key(cfg):
-    return '%s/%s/%s/J%d/%s/%s/%s' % (cfg['dir'], cfg['biort'], cfg['qshift'], cfg['J'], cfg['layout'], cfg.get('skip'), cfg.get('subset'))
+    return '%s/%s/%s/J%d/%s/%s/%s%s' % (cfg['dir'], cfg['biort'], cfg['qshift'], cfg['J'], cfg['layout'], cfg.get('skip'), cfg.get('subset'), '/' + cfg['mode'] if cfg.get('mode') else '')
 
 
 _JINV = {}
@@ -66,7 +72,7 @@ def oracle_run(cfg):
         return [t for t in yls + list(yh) if t is not None and t.dim() > 0 and t.numel() > 0]
     try:
         if cfg['dir'] == 'fwd':
-            fwd = DTCWTForward(biort=cfg['biort'], qshift=cfg['qshift'], J=J, o_dim=o, ri_dim=ri,
+            fwd = DTCWTForward(biort=cfg['biort'], qshift=cfg['qshift'], J=J, o_dim=o, ri_dim=ri, mode=cfg.get('mode', 'symmetric'),
                                skip_hps=[bool(v) for v in cfg['skip']], include_scale=[bool(v) for v in cfg['scales']] if any(cfg['scales']) else False)
             n = int(np.prod(shp)); cols = []
             with torch.no_grad():
@@ -84,12 +90,12 @@ def oracle_run(cfg):
                 if not ok:
                     return dict(detail='grad != J^T g for cotangent [%s]: %s' % (fam, msg))
             return None
-        fwd = DTCWTForward(biort=cfg['biort'], qshift=cfg['qshift'], J=J, o_dim=o, ri_dim=ri)
-        inv = DTCWTInverse(biort=cfg['biort'], qshift=cfg['qshift'], o_dim=o, ri_dim=ri)
+        fwd = DTCWTForward(biort=cfg['biort'], qshift=cfg['qshift'], J=J, o_dim=o, ri_dim=ri, mode=cfg.get('mode', 'symmetric'))
+        inv = DTCWTInverse(biort=cfg['biort'], qshift=cfg['qshift'], o_dim=o, ri_dim=ri, mode=cfg.get('mode', 'symmetric'))
         with torch.no_grad():
             yl0, yh0 = fwd(torch.zeros(shp, dtype=torch.float64))
         ins0 = [yl0] + list(yh0); sizes = [int(t.numel()) for t in ins0]
-        key = (cfg['biort'], cfg['qshift'], J, cfg['H'], cfg['W'], o, ri)
+        key = (cfg['biort'], cfg['qshift'], J, cfg['H'], cfg['W'], o, ri, cfg.get('mode'))
         if key not in _JINV:            # the Jacobian of the inverse does not depend on the grad subset: assemble it once per configuration
             cols = []
             with torch.no_grad():
